@@ -372,3 +372,41 @@ pub fn run_rows(obs: &mut Obs, c: &Case, pred: &dyn Pred, spec: &Spec, qr: case:
 
     Some(RunInfo { q, rows, batch: base.by_ref, single })
 }
+
+/// Single-sample (one-dimensional) entry points: the feature vector handed over as an owned `Array1`,
+/// a contiguous view, a strided view (every second element of a junk-filled buffer) and a reversed-stride
+/// view must each give, bit for bit, what the one-row batch gives (`info.single`). `label` names the entry
+/// point in messages; the closures convert the model's answer to f64 like `ToOut` does.
+pub fn check_single_sample(
+    obs: &mut Obs,
+    info: &RunInfo,
+    label: &str,
+    by_view: &dyn Fn(ndarray::ArrayView1<'_, f64>) -> f64,
+    by_owned: &dyn Fn(ndarray::Array1<f64>) -> f64,
+) {
+    use ndarray::{s, Array1};
+    for (i, x) in info.rows.iter().enumerate() {
+        let Some(want) = info.single.get(i).and_then(|r| r.first()).copied() else { continue };
+        let p = x.len();
+        let owned = Array1::from(x.clone());
+        let mut wide = Array1::from_elem(2 * p + 1, 7777.25);
+        let mut rev = Array1::zeros(p);
+        for (j, v) in x.iter().enumerate() {
+            wide[2 * j + 1] = *v;
+            rev[p - 1 - j] = *v;
+        }
+        let forms: [(&str, Option<f64>); 4] = [
+            ("owned Array1", obs.call("predict(single sample, Ix1)", || by_owned(owned.clone()))),
+            ("contiguous ArrayView1", obs.call("predict(single sample, Ix1)", || by_view(owned.view()))),
+            ("strided ArrayView1", obs.call("predict(single sample, Ix1)", || by_view(wide.slice(s![1..2 * p + 1;2])))),
+            ("reversed ArrayView1", obs.call("predict(single sample, Ix1)", || by_view(rev.slice(s![..;-1])))),
+        ];
+        obs.class("single_sample_form_checked");
+        for (name, got) in forms {
+            let Some(got) = got else { continue };
+            obs.ensure(got.to_bits() == want.to_bits(), "single-sample:value", || {
+                format!("{label} on {name} {x:?} returns {got:e}, the one-row batch returns {want:e}")
+            });
+        }
+    }
+}
